@@ -10,7 +10,7 @@
    outcomes are the real code's is the correspondence run, which executes every generated
    case in the real engine under a stack limit and a deadline, in an isolated process for the
    crash-prone ones. Memory exhaustion and goroutine scheduling are outside the model. *)
-From PV Require Import Lib.Outcome Model.Lexer Model.ParseExpr Model.ParseDoc Model.Filters Model.Exec Model.Api Spec.SpecWalk Spec.SpecNoPanic.
+From PV Require Import Lib.Outcome Model.Lexer Model.ParseExpr Model.ParseDoc Model.Filters Model.Exec Model.Api Spec.SpecWalk Spec.SpecNoPanic Spec.SpecWf.
 From PV Require Import Tie.C01.
 Open Scope N_scope.
 
@@ -121,3 +121,185 @@ Example C01a_witness :
   (* {% endif %} : end tag without its opening tag *)
   np_compile [123; 37; 32; 101; 110; 100; 105; 102; 32; 37; 125] = Err 2.
 Proof. exact tie_c01a_witness. Qed.
+
+(* ================= the executor never panics ================= *)
+(* Property C01 - totality, execution half: executing a well-formed template never panics.
+
+   In the model every place where pongo2's executor would panic is an explicit [Panic site]
+   outcome: 90 (no current frame), 91, 92 (a variable that does not start with an identifier),
+   93/94 (macro call whose closure points outside the stack), 95 (block.Super likewise), 96
+   (include with neither a template nor a name), 97/98 (if with too few bodies), and whatever a
+   filter could return (Panic 1..4 of Value.v are only reachable through filters; C01 already
+   says no filter returns them).
+
+   Well-formedness (Spec/SpecWf.v): [wf_template t] says that, everywhere in t - its nodes,
+   its macros' bodies, its blocks, its parents and every statically included / ssi template -
+   variables start with an identifier, an if has as many bodies as conditions (or one more,
+   the else), an include has a template or a name.  It is a boolean, checkable by computation
+   on any compiled template.  [plain_ctx] says a caller passes plain values (no macro / block
+   closures): Go callers cannot build those.  [exec_inv] is the invariant of a running
+   execution: the frame stack is not empty and every closure held by the frame at position p
+   (from the bottom) points at a position <= p and carries well-formed code.
+
+   RELATIVE TO THE COMPILER.  A lazy include compiles a template at run time; the execution
+   theorems therefore assume of the compiler (Model/ParseDoc.v's compile_file) that it
+     [compiler_wf se]        only produces well-formed templates, and
+     [compiler_no_panic se]  does not panic itself.
+   Both are the compile half of C01 (proved separately).  For a set without loaders both hold
+   outright (nothing can be fetched), which gives the unconditional instance below.
+
+   - C01_exec_never_panics: the main theorem, for Template.Execute (buffered and unbuffered)
+     from the empty stack, any fuel, any caller context.
+   - C01_run_template_never_panics: the same for the entry point the correspondence run uses.
+   - C01_exec_never_panics_no_loaders: no hypothesis on the compiler when the set has no loader.
+   - C01_exec_in_state_never_panics: the general form, from any well-formed stack (what a
+     nested include / ssi execution is).
+   - C01_eval_never_panics, C01_nodes_never_panic, C01_nodes_keep_invariant: expressions and
+     node lists in any state satisfying the invariant, and the invariant is kept.
+   - C01_root_state_invariant: the state in which a template's nodes start running satisfies
+     the invariant (so the hypotheses of the previous three are met by every real execution).
+   The Examples show a compiled template meeting the hypotheses and running, and that each
+   hypothesis is needed: ill-formed documents, or closures smuggled in through the caller's
+   context, do reach Panic sites. *)
+
+Theorem C01_exec_never_panics :
+  forall (se : senv) (globals : list (str * cval)),
+    plain_ctx globals -> compiler_wf se -> compiler_no_panic se ->
+    forall (fuel : nat) (g : gstate) (t : template) (ctx : list (str * cval)) (site : N),
+      wf_template t = true -> plain_ctx ctx ->
+      snd (exec_template se globals fuel (mkM [] [] g) t ctx) <> Panic site /\
+      snd (exec_template_unbuffered se globals fuel (mkM [] [] g) t ctx) <> Panic site.
+Proof. exact tie_exec_never_panics. Qed.
+Print Assumptions C01_exec_never_panics.
+
+Theorem C01_run_template_never_panics :
+  forall (w : world) (t : template) (g : gstate) (ctx : list (str * cval)) (site : N),
+    plain_ctx (w_globals w) -> compiler_wf (world_senv w) -> compiler_no_panic (world_senv w) ->
+    wf_template t = true -> plain_ctx ctx ->
+    run_template w t g ctx <> OPanic site.
+Proof. exact tie_run_template_never_panics. Qed.
+Print Assumptions C01_run_template_never_panics.
+
+Theorem C01_exec_never_panics_no_loaders :
+  forall (se : senv) (globals : list (str * cval)) (fuel : nat) (g : gstate) (t : template)
+         (ctx : list (str * cval)) (site : N),
+    se_loaders se = [] -> plain_ctx globals -> wf_template t = true -> plain_ctx ctx ->
+    snd (exec_template se globals fuel (mkM [] [] g) t ctx) <> Panic site /\
+    snd (exec_template_unbuffered se globals fuel (mkM [] [] g) t ctx) <> Panic site.
+Proof. exact tie_exec_never_panics_no_loaders. Qed.
+Print Assumptions C01_exec_never_panics_no_loaders.
+
+Theorem C01_exec_in_state_never_panics :
+  forall (se : senv) (globals : list (str * cval)),
+    plain_ctx globals -> compiler_wf se -> compiler_no_panic se ->
+    forall (fuel : nat) (st : mstate) (t : template) (ctx : list (str * cval)) (site : N),
+      wf_state st -> wf_template t = true -> wf_ctx (length (ms_frames st)) ctx ->
+      snd (exec_template se globals fuel st t ctx) <> Panic site /\
+      snd (exec_template_unbuffered se globals fuel st t ctx) <> Panic site.
+Proof. exact exec_template_np. Qed.
+Print Assumptions C01_exec_in_state_never_panics.
+
+Theorem C01_eval_never_panics :
+  forall (se : senv) (globals : list (str * cval)),
+    plain_ctx globals -> compiler_wf se -> compiler_no_panic se ->
+    forall (fuel : nat) (st : mstate) (e : expr) (site : N),
+      exec_inv st -> wf_expr e = true -> eval se globals fuel st e <> Panic site.
+Proof. exact tie_eval_never_panics. Qed.
+Print Assumptions C01_eval_never_panics.
+
+Theorem C01_nodes_never_panic :
+  forall (se : senv) (globals : list (str * cval)),
+    plain_ctx globals -> compiler_wf se -> compiler_no_panic se ->
+    forall (fuel : nat) (st : mstate) (ns : list node) (site : N),
+      exec_inv st -> forallb wf_node ns = true ->
+      snd (exec_nodes se globals fuel st ns) <> Panic site.
+Proof. exact tie_exec_nodes_never_panic. Qed.
+Print Assumptions C01_nodes_never_panic.
+
+Theorem C01_nodes_keep_invariant :
+  forall (se : senv) (globals : list (str * cval)),
+    plain_ctx globals -> compiler_wf se -> compiler_no_panic se ->
+    forall (fuel : nat) (st : mstate) (ns : list node) (o : str) (st' : mstate),
+      exec_inv st -> forallb wf_node ns = true ->
+      exec_nodes se globals fuel st ns = (o, Ok st') -> exec_inv st'.
+Proof. exact tie_exec_nodes_keep_invariant. Qed.
+Print Assumptions C01_nodes_keep_invariant.
+
+Theorem C01_root_state_invariant :
+  forall (globals : list (str * cval)) (t : template) (ctx : list (str * cval)) (execid : N) n g,
+    plain_ctx globals -> wf_template t = true -> plain_ctx ctx ->
+    exec_inv (mkM [root_frame globals t ctx execid] n g).
+Proof. exact tie_root_state_inv. Qed.
+Print Assumptions C01_root_state_invariant.
+
+(* ---- the hypotheses are met by a real, non-trivial template ---- *)
+Definition ex_world : world := mkWorld [] false false [] [] [] [] [].
+(* {% macro m(x, y=2) %}<{{ x }}{{ y }}>{% endmacro %}{% if a %}{{ m(a) }}{% elif b %}B{% else %}
+   {% for i in l %}{{ i }}{{ m(i) }}{% endfor %}{% endif %}{% cycle 'p' 'q' as c %}
+   {% with z=m(1) %}{{ z }}{% endwith %}     (on one line) *)
+Definition ex_src : str :=
+  [123; 37; 32; 109; 97; 99; 114; 111; 32; 109; 40; 120; 44; 32; 121;
+   61; 50; 41; 32; 37; 125; 60; 123; 123; 32; 120; 32; 125; 125; 123;
+   123; 32; 121; 32; 125; 125; 62; 123; 37; 32; 101; 110; 100; 109; 97;
+   99; 114; 111; 32; 37; 125; 123; 37; 32; 105; 102; 32; 97; 32; 37;
+   125; 123; 123; 32; 109; 40; 97; 41; 32; 125; 125; 123; 37; 32; 101;
+   108; 105; 102; 32; 98; 32; 37; 125; 66; 123; 37; 32; 101; 108; 115;
+   101; 32; 37; 125; 123; 37; 32; 102; 111; 114; 32; 105; 32; 105; 110;
+   32; 108; 32; 37; 125; 123; 123; 32; 105; 32; 125; 125; 123; 123; 32;
+   109; 40; 105; 41; 32; 125; 125; 123; 37; 32; 101; 110; 100; 102; 111;
+   114; 32; 37; 125; 123; 37; 32; 101; 110; 100; 105; 102; 32; 37; 125;
+   123; 37; 32; 99; 121; 99; 108; 101; 32; 39; 112; 39; 32; 39; 113; 39;
+   32; 97; 115; 32; 99; 32; 37; 125; 123; 37; 32; 119; 105; 116; 104;
+   32; 122; 61; 109; 40; 49; 41; 32; 37; 125; 123; 123; 32; 122; 32;
+   125; 125; 123; 37; 32; 101; 110; 100; 119; 105; 116; 104; 32; 37; 125].
+Definition ex_ctx : list (str * cval) :=
+  [ ([108] (* l *), CV (as_value (VList [VInt 7; VInt 8]))); ([97] (* a *), CV (as_value (VInt 0))) ].
+
+Example C01b_compiled_template_is_wf :
+  match compile_src (world_senv ex_world) big_fuel [60; 115; 62] (* <s> *) true ex_src g0 with
+  | Ok (t, _) => wf_template t
+  | _ => false
+  end = true.
+Proof. vm_compute. reflexivity. Qed.
+
+(* it renders "7<72>8<82>p<12>" *)
+Example C01b_compiled_template_runs :
+  api_render_string ex_world ex_src ex_ctx =
+  OOk [55; 60; 55; 50; 62; 56; 60; 56; 50; 62; 112; 60; 49; 50; 62].
+Proof. vm_compute. reflexivity. Qed.
+
+Example C01b_ctx_is_plain : plain_ctx ex_ctx.
+Proof. intros k c [E|[E|[]]]; injection E as _ <-; eexists; reflexivity. Qed.
+
+(* ---- each hypothesis is needed ---- *)
+Definition ex_se : senv := mkSenv [] (mkCfg [] [] [] []) false false.
+Definition ex_tpl (root : list node) : template := Tpl 1 [] true root [] [] None false false.
+Definition ex_run (root : list node) (ctx : list (str * cval)) : res mstate :=
+  snd (exec_template_unbuffered ex_se [] 100 (mkM [] [] g0) (ex_tpl root) ctx).
+
+(* ill-formed documents reach the Panic sites (and are rejected by wf_template) *)
+Example C01b_var_without_identifier_panics :
+  ex_run [NVar (EVar [PInt 0 None])] [] = Panic 92 /\ wf_template (ex_tpl [NVar (EVar [PInt 0 None])]) = false.
+Proof. split; vm_compute; reflexivity. Qed.
+Example C01b_if_without_body_panics :
+  ex_run [NIf [EBool true] []] [] = Panic 97 /\ wf_template (ex_tpl [NIf [EBool true] []]) = false.
+Proof. split; vm_compute; reflexivity. Qed.
+Example C01b_include_of_nothing_panics :
+  ex_run [NInclude None None [] false false] [] = Panic 96 /\
+  wf_template (ex_tpl [NInclude None None [] false false]) = false.
+Proof. split; vm_compute; reflexivity. Qed.
+
+(* a well-formed document, but a caller's context holding closures: {{ m() }} with m a macro
+   closure over frame 3, {{ block.Super }} with a block closure over frame 3 *)
+Example C01b_closure_in_context_panics :
+  ex_run [NVar (EVar [PIdent [109] (* m *) (Some [])])]
+         [([109] (* m *), CMacro (Macro [109] [] [] false) 3)] = Panic 93 /\
+  ex_run [NVar (EVar [PIdent [98; 108; 111; 99; 107] (* block *) None; PIdent [83; 117; 112; 101; 114] (* Super *) None])]
+         [([98; 108; 111; 99; 107] (* block *), CBlock 3 [[]])] = Panic 95 /\
+  wf_template (ex_tpl [NVar (EVar [PIdent [109] (Some [])])]) = true.
+Proof. repeat split; vm_compute; reflexivity. Qed.
+
+(* the compile-half theorem above discharges [compiler_no_panic] for every set *)
+Theorem C01_compiler_no_panic_holds : forall se : senv, compiler_no_panic se.
+Proof. exact tie_compiler_no_panic_holds. Qed.
+Print Assumptions C01_compiler_no_panic_holds.
